@@ -54,6 +54,15 @@ def schedBounded (hz : Nat → Nat) (d : Dump) : Bool :=
 def notOverdue (d : Dump) : Bool :=
   d.pit.all (fun e => match e.sched with | some p => decide (d.now < p + period) | none => true)
 
+/-- `satisfied d matched`: every entry the Data just processed satisfies (`matched`) is scheduled for
+    removal no later than now — "removed promptly once it is satisfied" -/
+def satisfiedPrompt (d : Dump) (matched : PitEntry → Bool) : Bool :=
+  d.pit.all (fun e => !matched e || (match e.sched with | some p => decide (p ≤ d.now) | none => true))
+
+/-- does a Data packet named `n` satisfy the entry (by name: equal, or a prefix with CanBePrefix)? -/
+def dataSatisfies (n : Name) (e : PitEntry) : Bool :=
+  decide (e.name = n) || (e.cbp && decide (n.take e.name.length = e.name))
+
 def sizesTrue (d : Dump) : Bool :=
   d.nPit == d.pit.length && d.tokMap == d.pit.length && d.qLen == (d.pit.filter (fun e => e.sched.isSome)).length &&
   d.nCs == d.cs.length && d.lru.length == d.cs.length && d.loc == d.cs.length
